@@ -138,7 +138,12 @@ def check(run: Run) -> None:
 
     # ---------------- R3
     cand_t = good_t_g[3][0][0] if good_t_g[0] == "comp" else ("top", "?")
-    want_b = lambda t: t[0] == "subscript" and t[2] == callerp_g  # noqa: E731
+    def want_b(t):
+        # bucket[caller_name], or bucket.get(caller_name, <empty list>) - the same read of a table whose entries are lists
+        if t[0] == "subscript" and t[2] == callerp_g:
+            return True
+        return t[0] == "app" and t[1][0] == "attr" and t[1][2] == "get" and len(t[2]) == 2 and t[2][0] == callerp_g and t[2][1] in (("list", ()), ("app", ("global", "builtins.list"), (), ())) and not t[3]
+
     ok3 = cand_t[0] == "ifexp" and cand_t[1] == ("op", "Compare:IsNot", (callerp_g, ("const", None))) and want_b(cand_t[2])
     if not ok3 and cand_t[0] == "ifexp" and cand_t[1] == ("op", "Compare:Is", (callerp_g, ("const", None))):
         ok3 = want_b(cand_t[3])
@@ -159,7 +164,13 @@ def check(run: Run) -> None:
         ok3 = ok3 and n_bucket >= 1
     run.check(ok3, "C03.R3", g, good_def, "with a caller name the candidates are bucket[caller_name]", f"candidates are {show(cand_t)[:140]}: not restricted to the lambdas that are arguments of the named caller", "lambdas_on_a_line[caller_name] if caller_name is not None else all")
     # bucket key is the identifier preceding the lambda
-    apps = [c for f_ in unit(m, ps) for c in calls_in(f_) if isinstance(c.func, ast.Attribute) and c.func.attr == "append" and isinstance(c.func.value, ast.Subscript)]
+    from ..lib import call_events as _ce
+
+    def _bucket(r_):
+        # bucket[key].append(..) / bucket.setdefault(key, []).append(..)
+        return r_ is not None and (r_[0] == "subscript" or (r_[0] == "app" and r_[1][0] == "attr" and r_[1][2] == "setdefault" and len(r_[2]) == 2))
+
+    apps = [e_ for e_ in _ce(ctx, ps, lambda n_: n_ == "append") if _bucket(strip_sites(e_.recv) if e_.recv is not None else None)]
     run.check(len(apps) == 1, "C03.R3", ps, ps.node, "lambdas are bucketed by the preceding identifier", f"{len(apps)} bucket appends")
     os_cls = m.find_class("ObjectStream", in_module="func_adl.object_stream")
     from ..lib import view
